@@ -11,12 +11,15 @@ Property theorems (all inputs, any strict weak order on the keys, any number of 
   * `thread_target_position`        — a thread's block starts at Σ chunk begins (the C++ `target_position`)
   * `output_windows_tile`           — consecutive windows: every output position in exactly one window
   * `inputs_advanced_exactly`       — the merged prefix consists of the prefixes `[0, o_i)` of the inputs
+  * `merge_phase_all_schedules`     — threads writing disjoint windows and reading only the inputs: every
+                                      interleaving leaves the same memory (Bernstein conditions)
   * `front_end_switch`              — the sequential/parallel decision table of the four front ends
 The per-thread sequential merge is its specification `kMerge` (C05); offsets are assumed to satisfy the
 C08 specification `IsPartition`.  OPEN items are listed at the end.
 -/
 import TlxVerif.Proofs.C07Split
 import TlxVerif.Proofs.C07Windows
+import TlxVerif.Proofs.C07Phases
 import TlxVerif.Proofs.C08Checker
 namespace TlxVerif.C07
 open TlxVerif.C08 (StrictWeak IsPartition)
@@ -69,6 +72,17 @@ theorem inputs_advanced_exactly {lt : Int → Int → Bool} (hlt : StrictWeak lt
     (hp : IsPartition lt (keyRuns runs) rank o) :
     ((kMerge lt runs).take rank).Perm (takes runs o).flatten :=
   take_kMerge_perm_prefixes hlt tagOrder_tagLt (goodRuns_of_wellTagged hw hk) hp
+
+/-- **All schedules.**  Model the merge phase as threads made of atomic steps on a memory with cells
+`inl k` (output position k) and `inr j` (input cells).  If every step of thread `t` writes only positions of
+the thread's window `[Σ_{u<t} len_u, Σ_{u≤t} len_u)` (the windows of `thread_target_position`) and reads only
+input cells, then any two interleavings that respect each thread's program order end in the same memory. -/
+theorem merge_phase_all_schedules {Val : Type} (ls : List Nat) (progs : List (List (Phases.Step Phases.Cell Val)))
+    (h : ∀ (t : Nat) (p : List (Phases.Step Phases.Cell Val)), progs[t]? = some p → ∀ s ∈ p,
+      Phases.ReadsInputsOnly s ∧ Phases.WritesWindow (ls.take t).sum (ls.take (t + 1)).sum s)
+    {l₁ l₂ : List (Phases.Step Phases.Cell Val)} (h₁ : Phases.Shuffle progs l₁) (h₂ : Phases.Shuffle progs l₂)
+    (m : Phases.Cell → Val) : Phases.exec l₁ m = Phases.exec l₂ m :=
+  Phases.merge_phase_schedule_independent ls progs h h₁ h₂ m
 
 /-- forced-sequential always wins, otherwise forced-parallel or the three thresholds -/
 theorem front_end_switch (fs fp : Bool) (t k n mk mn : Nat) :
@@ -134,8 +148,10 @@ example : min ((6 : Int) - 3) ((2 : Int) - 3) = -1 := by decide
 --   building chunk tables from `partitionM`/`upperBound` results and `assemble`) is not proved equal to
 --   `chunkRows`; it is exercised by the correspondence only.  Also needs the C08 OPEN item
 --   (partitionM returns an `IsPartition`).
--- OPEN: data_race_freedom — derived informally from `output_windows_tile` (disjoint write windows, inputs
---   read-only, no shared mutable state between thread creation and join); no transition-system model of the
---   C++ memory model.  Supported by ThreadSanitizer runs.
+-- OPEN: data_race_freedom — `merge_phase_all_schedules` proves schedule independence for threads whose steps
+--   have the window footprints; that the real per-thread `multiway_merge_base` touches nothing outside
+--   (chunks read-only, own window written) is asserted at window granularity, checked by the harness
+--   (per-position writer, write counts, inputs unchanged) and ThreadSanitizer, not derived from the C++;
+--   sequentially consistent memory is assumed.
 
 end TlxVerif.C07
